@@ -1,7 +1,7 @@
 (* Extract.v — extraction of the executable model to OCaml.  ExtrOcamlBasic only
    (bool, option, unit, prod, list, sumbool -> OCaml's); N, positive, nat, Z stay the
    extracted inductives.  No Extract Constant. *)
-From Zvt Require Import Base Length Cp437 Encoding Codec Lookup Transport Sequence SeqLookup Client.
+From Zvt Require Import Base Length Cp437 Encoding Codec Lookup CanonClass CanonRun Transport Sequence SeqLookup Client.
 From Zvt.gen Require Import Tables.
 From Coq Require Import ExtrOcamlBasic.
 Extraction Language OCaml.
@@ -9,4 +9,5 @@ Extraction "model.ml" len_ser len_de prim_enc prim_dec tag_enc tag_dec framed_de
   dec enc dec_cmd enc_cmd dec_plain enc_struct parse_enum run_dec run_enc run_enum
   read_frame read_frames read_frame_chunks flat
   run_seq_named run_upload_named
-  run_history error_table.
+  run_history error_table
+  run_canon canon_cmd canon_struct.
